@@ -42,7 +42,7 @@ func statChanges(before, after run.Snapshot, paths []string) []mon.Problem {
 func c02(args []string) {
 	c := chk.New("C02", "exploration", args)
 	c.Build(false)
-	c.Rule("generated non-streaming graphs of command / Go-function processes and sources; for each graph subsets of its tasks (all subsets when <= 5 tasks, else random ones) get all their outputs pre-placed (bytes of an earlier complete run incl. audit files / arbitrary user bytes / empty files), and the history 'complete run, run again in place' (also: 4-16 independent chains that end in the sink and fan into one merging process, re-run 25-60 times in place as separate processes and 60-150 times inside one process, so that every process finishes at the same moment); oracle = no start event of a skipped task, (inode, size, mtime_ns, sha256) of every pre-existing output unchanged, downstream tasks executed exactly once on the pre-existing bytes (reference evaluation), re-run executes nothing. distinct_nontrivial = distinct (graph shape, subset, content kind) with >= 1 skipped and >= 1 executed task, plus re-run histories")
+	c.Rule("generated non-streaming graphs of command / Go-function processes and sources; for each graph subsets of its tasks (all subsets when <= 5 tasks, else random ones) get all their outputs pre-placed (bytes of an earlier complete run incl. audit files / arbitrary user bytes / empty files), and the history 'complete run, run again in place' (also: 4-16 independent chains that end in the sink and fan into one merging process, also chains / two-output tasks / diamonds with outputs in nested, parent-relative and absolute directories, re-run completely and after deleting the last process's outputs; 4-16 independent chains re-run 25-60 times in place as separate processes and 60-150 times inside one process, so that every process finishes at the same moment); oracle = no start event of a skipped task, (inode, size, mtime_ns, sha256) of every pre-existing output unchanged, downstream tasks executed exactly once on the pre-existing bytes (reference evaluation), re-run executes nothing. distinct_nontrivial = distinct (graph shape, subset, content kind) with >= 1 skipped and >= 1 executed task, plus re-run histories")
 	c.Assume("subsets are subsets of tasks (all outputs of a task present), as the property quantifies; partial presence is C03's subject", ".audit.json files, log/ and atime are not judged")
 	rng := c.Rand("c02")
 	ngraphs := c.Pick(14, 120)
@@ -328,6 +328,7 @@ func c02(args []string) {
 		c.Sample(map[string]interface{}{"graph": gen.Describe(j.s), "preexisting_task_indices": j.subset, "content_kind": j.kind, "skipped": nskip, "executed": nexec, "cfg": j.cfg})
 	})
 	c02rerunMany(c)
+	c02pathShapes(c)
 	c.Finish()
 }
 
@@ -457,4 +458,109 @@ func tail(s string, n int) string {
 		return s[len(s)-n:]
 	}
 	return s
+}
+
+// c02pathShapes: 'complete run, run again in place' and 'outputs of a task subset already on disk' for output
+// paths in nested, parent-relative and absolute directories (the existence check must look at the declared path).
+func c02pathShapes(c *chk.Ctx) {
+	type job struct {
+		kind  string
+		shape gen.PathShape
+		gof   bool
+		part  bool // second run after deleting the outputs of the last process only
+	}
+	var jobs []*job
+	for _, k := range []string{"chain", "twoout", "diamond"} {
+		for _, sh := range []gen.PathShape{gen.ShapeNested, gen.ShapeParent, gen.ShapeAbs} {
+			for _, part := range []bool{false, true} {
+				if !c.Thorough() && (len(jobs)%3 == 2) {
+					jobs = append(jobs, nil)
+					continue
+				}
+				jobs = append(jobs, &job{k, sh, len(jobs)%4 == 1, part})
+			}
+		}
+	}
+	run.Parallel(len(jobs), func(i int) {
+		j := jobs[i]
+		if j == nil {
+			return
+		}
+		root := c.CaseDir()
+		defer c.Drop(root)
+		s := gen.Topo(j.kind, j.shape, j.gof, root, 2)
+		exp := evalRef(s, nil)
+		if exp.Err != "" {
+			c.Broken("reference cannot evaluate " + s.Name + ": " + exp.Err)
+		}
+		desc := map[string]interface{}{"spec": s, "topology": j.kind, "path_shape": j.shape, "gofunc": j.gof, "history": "complete run, run again in place"}
+		res := execSpec(c, root, s, Cfg{Buf: 3, Procs: 2}, nil, false, 0)
+		if res.Hang != "" && !strings.HasPrefix(res.Hang, "deadlock") {
+			c.Inconclusive("first run: " + res.Hang)
+			return
+		}
+		var ps []mon.Problem
+		if res.Hang != "" || res.Exit != 0 || !res.Returned {
+			ps = append(ps, mon.Problem{Sig: "exit-nonzero", Msg: fmt.Sprintf("first run: exit %d %s: %s", res.Exit, res.Hang, tail(res.Output(), 400))})
+		} else {
+			ps = converged(root, mon.SnapRoot(root), exp, preRootSet(root, s))
+		}
+		if len(ps) > 0 {
+			for _, sig := range sigSet(ps) {
+				c.Violation(sig, strings.Join(mon.Summarize(ps, 6), "\n  "), desc)
+			}
+			return
+		}
+		// root-relative keys of all outputs
+		rel := func(p string) string {
+			if filepath.IsAbs(p) {
+				r, _ := filepath.Rel(root, p)
+				return filepath.Clean(r)
+			}
+			return filepath.Clean(filepath.Join("wd", p))
+		}
+		var outs []string
+		lastProc := exp.Tasks[len(exp.Tasks)-1].Proc
+		for _, t := range exp.Tasks {
+			for _, o := range t.Outs {
+				if j.part && t.Proc == lastProc {
+					os.Remove(filepath.Join(root, rel(o)))
+					os.Remove(filepath.Join(root, rel(o)+".audit.json"))
+					continue
+				}
+				outs = append(outs, rel(o))
+			}
+		}
+		if j.part {
+			desc["history"] = "complete run, outputs of the last process deleted, run again"
+		}
+		before := mon.SnapRoot(root)
+		r2 := execSpec(c, root, s, Cfg{Buf: 3, Procs: 2}, nil, true, 1)
+		var rp []mon.Problem
+		if r2.Hang != "" {
+			if !strings.HasPrefix(r2.Hang, "deadlock") {
+				c.Inconclusive("re-run: " + r2.Hang)
+				return
+			}
+			rp = append(rp, mon.Problem{Sig: "rerun-hang", Msg: r2.Hang})
+		} else if r2.Exit != 0 || !r2.Returned {
+			rp = append(rp, mon.Problem{Sig: "rerun-failed", Msg: fmt.Sprintf("exit %d: %s", r2.Exit, tail(r2.Output(), 400))})
+		}
+		for _, e := range r2.Trace {
+			if e.Ev == "start" && !(j.part && strings.HasPrefix(e.Key, lastProc+"|")) {
+				rp = append(rp, mon.Problem{Sig: "rerun-executed-command", Msg: "the second run executed " + e.Key + " although its outputs exist"})
+			}
+		}
+		rp = append(rp, statChanges(before, mon.SnapRoot(root), outs)...)
+		if len(rp) > 0 {
+			for _, sig := range sigSet(rp) {
+				desc["problems"] = mon.Summarize(rp, 12)
+				c.Violation(sig, fmt.Sprintf("%s, %s paths: %s", j.kind, j.shape, strings.Join(mon.Summarize(rp, 4), "\n  ")), desc)
+			}
+			return
+		}
+		c.Count("outputs_stat_compared", len(outs))
+		c.Count("path_shape_histories", 1)
+		c.Nontrivial(fmt.Sprintf("pathshape|%s|%s|%v|%v", j.kind, j.shape, j.gof, j.part))
+	})
 }
